@@ -328,3 +328,63 @@ def group_le(cx):
             continue
         bad.append(show(idx)[:100])
     cx.check(not bad, "returns", "every returned index is the quorum index, min(., quorum index), the smallest gathered index, or u64::MAX for the empty config (others: %s)" % bad[:3], shape=len(rets))
+
+
+@obligation("QUORUM.group_scan", ["C11"], floor=3, kind="loop shape (guarded local updates + return table)",
+            why="with group commit the result is the largest index replicated into two groups: the scan must remember the first group it meets and stop at the first entry of a different one")
+def group_scan(cx):
+    from ..prog import Site
+    f = cx.fn("majority::Configuration::committed_index")
+    a = cx.prog.A(f)
+    g = cx.pg(f)
+
+    def is_item_gid(e):
+        return e[0] == "field" and e[2] == "Index.group_id" and any(x[0] == "call" and x[1].endswith("::next") for x in walk(e))
+
+    def is_local(e, L):
+        return (e[0] == "phi" and e[1] == L) or (e[0] == "local" and e[1] == L)
+    sets = []
+    for bi in sorted(a.reach):
+        for si, st in enumerate(f.body.blocks[bi]["stmts"]):
+            if st.get("k") == "assign" and not st["place"]["p"] and f.body.local_ty(st["place"]["l"]) == "u64":
+                v = a.expr_rvalue(st["rv"], (bi, si))
+                if is_item_gid(v) and f.body.local_name(st["place"]["l"]):
+                    sets.append((Site(f, bi, si, "write"), st["place"]["l"]))
+    cx.check(len(sets) == 1, "remember:site", "the scan remembers the group of the first grouped entry at one site (found %d)" % len(sets))
+    n = 0
+    for s, L in sets:
+        gl = cx.guard_lits(s)
+        unset = any(l[0] == "in" and l[2] == frozenset([0]) and is_local(l[1], L) for l in gl)
+        grouped = any(l[0] == "notin" and 0 in l[2] and is_item_gid(l[1]) for l in gl)
+        cx.check(unset and grouped, cx.site_key(s, "remember"), "the remembered group is set from a grouped entry (group_id != 0) only while none is remembered yet", s)
+        # it starts as the group of the quorum-rank element
+        inits = [d for d in a.defs[L] if (d[0], d[1]) != s.at]
+        oki = len(inits) == 1 and inits[0][2] != "call" and any(x[0] == "field" and x[2] == "Index.group_id" for x in walk(a.expr_rvalue(inits[0][3], (inits[0][0], inits[0][1])))) and not any(x[0] == "call" and x[1].endswith("::next") for x in walk(a.expr_rvalue(inits[0][3], (inits[0][0], inits[0][1]))))
+        cx.check(oki, cx.site_key(s, "remember:init"), "the remembered group starts as the group of the element at the quorum rank", s)
+        n += 1
+        # the two-group verdict
+        rets = g.returns(limit=20000)
+        two = [(lits, v) for lits, v, _ in rets if v[0] == "tuple" and v[1][1] == ("bool", True) and not (v[1][0][0] == "int")]
+        cx.check(bool(two), "two-groups:paths", "there are return paths reporting a group-commit index")
+        okt = bool(two)
+        for lits, v in two[:60]:
+            diff = any(l[0] == "is" and l[2] is False and l[1][0] == "bin" and l[1][1] == "Eq" and any(is_item_gid(x) for x in l[1][2:4]) and any(is_local(x, L) for x in l[1][2:4]) for l in lits)
+            both = any(l[0] == "notin" and 0 in l[2] and is_item_gid(l[1]) for l in lits) and any(l[0] == "notin" and 0 in l[2] and is_local(l[1], L) for l in lits)
+            mn = as_min(v[1][0])
+            okm = mn is not None and len(mn) == 2 and any(x[0] == "field" and x[2] == "Index.index" and any(y[0] == "call" and y[1].endswith("::next") for y in walk(x)) for x in mn) and any(x[0] == "field" and x[2] == "Index.index" and any(y[0] == "index" for y in walk(x)) for x in mn)
+            okt = okt and diff and both and okm
+        cx.check(okt, "two-groups", "(min(entry.index, quorum index), true) is returned exactly at the first grouped entry whose group differs from the remembered one")
+        n += 1
+    # an ungrouped voter disables the single-group shortcut
+    flags = []
+    for bi in sorted(a.reach):
+        for si, st in enumerate(f.body.blocks[bi]["stmts"]):
+            if st.get("k") == "assign" and not st["place"]["p"] and f.body.local_ty(st["place"]["l"]) == "bool" and f.body.local_name(st["place"]["l"]):
+                c = st["rv"].get("use", {}).get("const", {})
+                if c.get("ty") == "bool" and c.get("val", {}).get("int") == 0:
+                    s = Site(f, bi, si, "write")
+                    if any(l[0] == "in" and l[2] == frozenset([0]) and is_item_gid(l[1]) for l in cx.guard_lits(s)):
+                        flags.append(s)
+    cx.check(len(flags) == 1, "ungrouped", "meeting an entry without a group clears the single-group flag")
+    n += 1
+    cx.check(n >= 3, "floor", "group scan sites were found")
